@@ -413,6 +413,18 @@ class Inliner(object):
         elif isinstance(s, ast.ClassDef): visit(s.body, (cls + '.' if cls else '') + s.name)
     visit(self.tree.body, '')
 
+  def _dead_after (self, call, name):
+    """is the caller's local `name` never read after the statement containing `call` (no enclosing loop, no later line reads it)?"""
+    fn = getattr(self, 'cur_fn', None)
+    if fn is None or not any(y is call for y in ast.walk(fn)): return False
+    end = getattr(call, 'end_lineno', None) or call.lineno
+    for x in ast.walk(fn):
+      if isinstance(x, (ast.For, ast.While, ast.AsyncFor)) and any(y is call for y in ast.walk(x)): return False
+      if isinstance(x, FUNC) and x is not fn and any(isinstance(y, ast.Name) and y.id == name for y in ast.walk(x)): return False
+    for x in ast.walk(fn):
+      if isinstance(x, ast.Name) and x.id == name and isinstance(x.ctx, ast.Load) and getattr(x, 'lineno', 0) > end: return False
+    return True
+
   def _defined_elsewhere (self, name):
     try: return bool(self.external_def(name))
     except TypeError: return True
@@ -486,11 +498,12 @@ class Inliner(object):
             fd = ast.FunctionDef(name=nm_, args=a_, body=[ast.copy_location(ast.Return(value=s_.value.body), s_)], decorator_list=[], returns=None, type_comment=None, type_params=[])
             ast.copy_location(fd, s_); ast.fix_missing_locations(fd)
             closures[nm_] = fd; lam_defs[nm_] = s_
+    if depth == 0: self.cur_fn = fn
     self.expr_inline(fn, cls, closures)
     for nm_, s_ in lam_defs.items():
       if not any(isinstance(n, ast.Name) and n.id == nm_ and isinstance(n.ctx, ast.Load) for n in ast.walk(fn)) and s_ in fn.body: fn.body.remove(s_)
     if depth == 0:
-      self.cur_known = set(self.inv.get(qual, ())); self.cur_taken = local_names(fn); self.cur_claimed = set()
+      self.cur_known = set(self.inv.get(qual, ())); self.cur_taken = local_names(fn); self.cur_claimed = set(); self.cur_fn = fn
     fn.body = self.block(fn.body, cls, qual, depth, closures)
     if depth == 0: _split_tuple_returns(fn)
     if depth == 0:
@@ -696,6 +709,9 @@ class Inliner(object):
     m = {}; pre = []
     for p, v in actual.items():
       if p not in stored and _simple(v): m[p] = v
+      elif p in stored and isinstance(v, ast.Name) and self._dead_after(call, v.id):
+        # the helper rebinds its parameter, and the caller never looks at the argument variable again: the helper's variable *is* the caller's
+        m[p] = v.id
       else:
         nm = "%s__%s" % (h.name.strip('_'), p)
         m[p] = nm
